@@ -129,7 +129,8 @@ class ActionsFamily:
             action = rng.choice(ACTIONS if rng.random() < 0.6 else ['next', 'next', 'submit', 'remove', 'skip', 'abort', 'error'])
             ops += [{'op': 'act', 'target': target_for(rng, wf), 'action': action, 'options': options_for(rng, action, wf)}, {'op': 'quiesce'}, {'op': 'snapshot', 'level': 'rows'}]
         rt = rng.choice([{'flavor': 'current'}, {'flavor': 'current', 'chaos': {'max_yields': 3, 'seed': rng.randrange(1, 1 << 40)}}, {'flavor': 'multi', 'workers': 2, 'chaos': {'max_yields': 2, 'seed': rng.randrange(1, 1 << 40)}}])
-        sc = {'id': '', 'family': 'actions', 'sched': rt['flavor'], 'seed': rng.randrange(1 << 30), 'runtime': rt, 'engine': {'store': opts.get('store', 'mem'), 'keep_processes': True},
+        keep = rng.random() < opts.get('keep', 0.8)     # default configuration: an ended process is removed, every later action must be refused
+        sc = {'id': '', 'family': 'actions', 'sched': rt['flavor'], 'seed': rng.randrange(1 << 30), 'runtime': rt, 'engine': {'store': opts.get('store', 'mem'), 'keep_processes': keep},
               'models': [json.dumps(wf)], 'responder': {'rules': []}, 'ops': ops}
         return {'scenarios': [sc], 'meta': {'wf': wf, 'kind': kind, 'sub': 'matrix'}, 'digest': digest([wf, ops]), 'nontrivial': True}
 
